@@ -258,8 +258,9 @@ def tag(run, p):
                         wrap, plain = q.body[0].value, alt.value
                         if _is_group_of(p, f, wrap, plain):
                             ok, how = True, 'group-or-not'
-            run.ob('C13-TAG', '%s::%s::%s' % (f.rel, f.short, norm(par)[:40] if par is not None else u.lineno), ok,
-                   '%s in %s is %s: %s' % (norm(u), f.short, how, norm(par)[:60] if par is not None else ''), fn=f, node=u)
+            from .c11 import backed
+            backed(run, 'C13-TAG', '%s::%s::%s' % (f.rel, f.short, norm(par)[:40] if par is not None else u.lineno), ok,
+                   '%s in %s is %s: %s' % (norm(u), f.short, how, norm(par)[:60] if par is not None else ''), 'C13-EXTRACT', fn=f, node=u)
     cg = p.fn(RX + 'capture_group')
     from ..pyeval import Interp, Unsupported, Raised
     try:
